@@ -82,6 +82,10 @@ func NewQuotaFloodPreventer(arg ArgQuotaFloodPreventer) (*quotaFloodPreventer, e
 			minTotalSize,
 		)
 	}
+	if arg.PercentReserved != arg.PercentReserved {
+		// NaN passes both range checks below and would disable every quota
+		return nil, fmt.Errorf("%w, percentReserved is not a number", process.ErrInvalidValue)
+	}
 	if arg.PercentReserved > maxPercentReserved {
 		return nil, fmt.Errorf("%w, percentReserved: provided %0.3f, maximum %0.3f",
 			process.ErrInvalidValue,
